@@ -114,6 +114,9 @@ def main(tier, seed):
                         tot += 1
                         if nres == exp:
                             okc += 1
+                        elif nres is not None:
+                            chk.violation('completion-api:' + t, 'sampled', '%s: program %r (a solver model of an explored path): completion offers the local names %s at the identifier positions, in scope are %s '
+                                          '(the resolver kernel agrees with the scoping rules: the defect is outside it)' % (name, text, nres, exp), {'template': t, 'names': smp['names'], 'text': text}, confirmed=True)
                         else:
                             chk.inconclusive.append('public-API validation FAILED: %r offers %s, in scope %s' % (text, nres, exp))
                 chk.validated += okc
